@@ -26,7 +26,8 @@ theorem filter_refines_unfolded (c : F.Clause) (hs : c.sound) (hw : c.wellTyped 
   F.filter_refines c hs hw f hnd he
 
 /-- T1: the functions this property's mirror model follows have today the source text the model was written against. -/
-theorem tie : Tie.sameAll ["qframe.filter", "qframe.orFrames", "qframe.OrClause.filter", "qframe.AndClause.filter", "qframe.NotClause.filter", "index.Filter", "ecolumn.Column.filterBuiltIn", "ecolumn.filterLike", "ecolumn.in", "scolumn.regexFilter"] = true := by decide
+-- (`filterBuiltIn`, the kernels and the bitset builders are regenerated as terms and proved: C02Kernels, C02Dispatch)
+theorem tie : Tie.sameAll ["qframe.filter", "qframe.orFrames", "qframe.OrClause.filter", "qframe.AndClause.filter", "qframe.NotClause.filter", "index.Filter"] = true := by decide
 
 /-! ### Facts about today's source (regenerated into `QF.Gen` on every run) -/
 
